@@ -6,11 +6,12 @@
    collections it iterates over, and hidden state left in the project object.
    Axiom used (Coq standard library): functional_extensionality_dep, to state
    the order-independence results as equalities of project states.
-   PARTIAL: the visit order of __check_working's set is fixed in the model
-   (index order); its independence is checked by the harness (forced orders),
-   as are fresh processes / other hash seeds / shifted heaps. *)
+   Every set the loop iterates over (finished top-level components, NONE
+   tasks, the target set of __check_working) may be visited in any order.
+   PARTIAL: fresh processes / other hash seeds / shifted heaps live in the
+   Python runtime and are exercised by the harness. *)
 From Coq Require Import List ZArith QArith Bool Arith Permutation.
-From PV Require Import Model.Types Model.Sim Model.Example Proofs.Base Proofs.RunLemmas Proofs.C09Proof.
+From PV Require Import Model.Types Model.Sim Model.Example Proofs.Base Proofs.RunLemmas Proofs.C09Proof Proofs.C09CW.
 Import ListNotations.
 Open Scope nat_scope.
 
@@ -42,6 +43,15 @@ Theorem C09_none_task_set_order : forall c s order,
   forall i, td (fold_left (ready_one c) order s) i = td (check_ready c s) i.
 Proof. exact check_ready_any_order. Qed.
 Print Assumptions C09_none_task_set_order.
+
+(* the target set of __check_working (READY tasks with workers, READY automatic
+   tasks that may start, WORKING tasks with workers) may be visited in any
+   order: the visits commute pairwise, whatever the state (no exclusivity of
+   workers needed) *)
+Theorem C09_check_working_set_order : forall c s order,
+  Permutation order (filter (cw_target c s) (tasks c)) -> fold_left (cw_one c) order s = check_working c s.
+Proof. exact check_working_any_order. Qed.
+Print Assumptions C09_check_working_set_order.
 
 (* finishing (a fixpoint over the ordered task list) and the two PERT passes
    (ordered work lists) iterate over lists in the repaired code: the model has
